@@ -130,4 +130,9 @@ theorem allocate_spec (s : State) (hn : s.nextSuper < 256) :
       have := hall i (by omega) b
       simp [c] at this
 
+/-- `allocate_fs_idx` touches nothing but `next_super` -/
+theorem allocate_eq (s : State) : ∃ next r, s.allocateFsIdx = ({ s with nextSuper := next }, r) := by
+  unfold State.allocateFsIdx
+  exact ⟨_, _, rfl⟩
+
 end Fbr.Lemmas.VfsAlloc
